@@ -1,7 +1,8 @@
 import Drivers.Proto
+-- one import line per driver (union-merged)
 import Drivers.Tables
 
-/-! `refdrv <driver> [args]` : dispatch to a line-protocol driver. -/
+/-! `refdrv <driver> [args]` : dispatch to a line-protocol driver. One match arm per driver, on one line. -/
 
 def main (args : List String) : IO UInt32 := do
   match args with
